@@ -2,9 +2,11 @@
 from __future__ import annotations
 
 import itertools
+import random
 
 from harness.gen import datasets as G
 from harness.gen import c01_extra as X
+from harness.gen import c01_extra6 as X6      # sixth round: spellings of an index, larger grids, names tables, process history
 from harness import util
 
 ID = 'C01'
@@ -12,7 +14,14 @@ MODULE = 'EmsModel.Props.C01'
 DRIVER = 'C01'
 # theorems about the terms harness/trans_indexsrc.py generates from the source of the index functions
 EXTRA_MODULES = ['EmsModel.Props.C01Src']
-REQUIRED = [
+# sixth round: the integer type an index is spelt in, the accumulation of the linear index, conventions under a names table
+EXTRA_MODULES.append('EmsModel.Props.C01Spelling')
+REQUIRED_SPELLING = [
+    'Ems.C01.typed_ravel_eq', 'Ems.C01.typed_wind_eq', 'Ems.C01.typed_spelling_irrelevant',
+    'Ems.C01.ravel_eq_horner', 'Ems.C01.ravel_lastCell', 'Ems.C01.narrow_accumulation_wrong',
+    'Ems.C01.arakawa_rename', 'Ems.C01.arakawa_rename_index', 'Ems.C01.arakawa_more_variables',
+]
+REQUIRED = REQUIRED_SPELLING + [
     'Ems.C01.ravel_index_generated', 'Ems.C01.wind_index_generated', 'Ems.C01.grid_size_generated',
     'Ems.C01.index_functions_translated', 'Ems.C01.ravel_wind_generated', 'Ems.C01.wind_rejects_generated',
     'Ems.C01.ravel_rejects_generated',
@@ -36,11 +45,25 @@ RULE = ('datasets of all five convention classes (UGRID with and without an edge
         'those on no grid, depth / time coordinates, geometry, ravel / wind of variables, selections, a clip mask, '
         'refused index questions, …) are put to the convention object before the index questions; the expected '
         'answers stay those of the generator (what was asked before may not change an index space). '
+        'A third stream (gen/c01_extra6.py, a random stream of its own) has grids with more cells than an integer type '
+        'counts - medium (128 to ~600 cells), big (32768 to ~80000 cells, every convention, built with numpy) and a CF 1-D '
+        'grid of more than 2**31 / 2**32 cells - probed, not enumerated: corners, first / middle / last cell, the cells either '
+        'side of every power-of-two boundary of the linear index, components at the largest value of a type, drawn ones; '
+        'every probe is put with its integers spelt as Python ints, as numpy integers of every width that holds them '
+        '(int8 ... uint64) and as 0-d arrays, in both directions, in range and out of range. '
+        'A fourth stream plays what happened earlier in the process (walked in a cycle of 8): other datasets opened before '
+        'the one under test - SHOC standard / Arakawa C datasets under a names table (ShocStandard(ds, coordinate_names=), '
+        'ArakawaC(ds, coordinate_names=), a subclass with the table on the class; string or enumeration keys; coordinate '
+        'variables renamed to names of their own or to the default names of the other grids), CF datasets opened by '
+        'explicit names / a topology helper -, refused constructions (partial table, no table), a class put on another '
+        "convention's dataset, a second object with another table on the very dataset under test; the dataset under test "
+        '(any convention, itself possibly under a names table) then gets every question of the first stream. '
         'The grid shapes given to the model come from the generator, not from emsarray. '
         'A case is non-trivial when its grid has >= 2 cells in a non-square or 1-D shape, or is an '
         'out-of-range probe; distinct = distinct (convention, shape, kind, op, argument).')
 TRUSTED = ['numpy.ravel_multi_index / numpy.unravel_index follow C order and raise on out-of-range (modelled by Ems.ravel / Ems.unravel)']
-ASSUMPTIONS = ['native indexes are (y,x) / (kind,j,i) / (kind,i) tuples of Python ints']
+ASSUMPTIONS = ['native indexes are (y,x) / (kind,j,i) / (kind,i) tuples of integers: Python ints, numpy integer scalars '
+               'or 0-d integer arrays (the value is what counts)']
 
 
 def native_str(conv: str, idx) -> str:
@@ -73,7 +96,7 @@ def exercise(ctx, items: list, recipe: dict, tag: str) -> None:
     """every C01 question about the dataset of one recipe: real calls, oracle, lines for the model"""
     rng = ctx.rng
     desc0 = {'recipe': recipe}
-    built = X.build(recipe)
+    built = X6.build(recipe)
     conv = built.conv
     spec = built.grids_spec()
     ctx.count(f'{tag}conv:{conv}' + ('+edge' if 'edge' in built.grids else ''))
@@ -88,7 +111,7 @@ def exercise(ctx, items: list, recipe: dict, tag: str) -> None:
         ctx.oracle_fail(signature, desc, message + after)
 
     try:
-        c = X.bind(built)
+        c = X6.bind(built)
     except Exception as e:  # noqa: BLE001
         # a supported dataset for which no convention object can be had: none of its indexes converts
         fail('convention-construction-raises', desc0,
@@ -96,6 +119,8 @@ def exercise(ctx, items: list, recipe: dict, tag: str) -> None:
         return
     for op, exc in built.extra.get('c01_history_raised', []):
         ctx.count(f'history-raised:{op}:{exc}')
+    for note in built.extra.get('c01_before_notes', []):      # (sixth round: how what was done before ended)
+        ctx.count(f'before-ended:{note}')
     # grid kinds and sizes, against the generator's ground truth
     impl_kinds = sorted(str(getattr(k, 'value', k)) for k in c.grid_kinds)
     if impl_kinds != sorted(built.grids):
@@ -229,6 +254,176 @@ def exercise(ctx, items: list, recipe: dict, tag: str) -> None:
         ctx.nontrivial((conv, 'absent-kind', kind))
 
 
+# >>> sixth round ------------------------------------------------------------------------------------------------
+NARROW = ['int8', 'uint8', 'int16', 'uint16', 'int32', 'uint32']
+
+
+def pick_spellings(prng, values, size: int) -> list:
+    """the spellings a probe is put in: every type that holds its integers but not the size of the grid (with the 0-d
+    forms), and three drawn from the others"""
+    usable = X6.usable(values)
+    narrow = [s for s in usable if X6.type_of(s) in NARROW and not X6.holds(s, size)]
+    rest = [s for s in usable if s not in narrow]
+    return narrow + prng.sample(rest, min(3, len(rest)))
+
+
+def exercise_typed(ctx, items: list, recipe: dict) -> None:
+    """a grid too large to enumerate: probed cells, every integer of every question spelt in several types"""
+    info = recipe['c01_typed']
+    prng = random.Random(info['probe_seed'])
+    desc0 = {'recipe': recipe}
+    built = X6.build(recipe)
+    conv, spec, dflt = built.conv, built.grids_spec(), built.default_kind
+    ctx.count(f"t-class:{info['class']}/{conv}")
+    ctx.evaluated()
+    try:
+        c = X6.bind(built)
+    except Exception as e:  # noqa: BLE001
+        ctx.oracle_fail('convention-construction-raises', desc0,
+                        f'constructing / binding {built.conv_class.__name__} raised {type(e).__name__}: {e}')
+        return
+    impl_kinds = sorted(str(getattr(k, 'value', k)) for k in c.grid_kinds)
+    if impl_kinds != sorted(built.grids):
+        ctx.oracle_fail('grid-kinds', desc0, f'grid_kinds {impl_kinds} != {sorted(built.grids)}')
+    kind_objs = {getattr(k, 'value', k): k for k in c.grid_kinds}
+    for kind, (dims, shape) in built.grids.items():
+        if kind not in kind_objs:
+            continue
+        size = 1
+        for s in shape:
+            size *= s
+        try:
+            impl_size = str(int(c.grid_size[kind_objs[kind]]))
+        except Exception:
+            impl_size = 'ERR'
+        items.append((f'size {spec} {dflt} {kind}', impl_size, desc0))
+        if impl_size != str(size):
+            ctx.oracle_fail('grid-size', {'recipe': recipe, 'kind': kind},
+                            f'grid_size[{kind}] = {impl_size}, the grid {dims} = {shape} has {size} locations')
+        where = f'on the {kind} grid {dims} = {shape} ({size} cells)'
+        cells = X6.probe_cells(prng, shape)
+        for comps in cells:
+            exp = 0
+            for v, s in zip(comps, shape):
+                exp = exp * s + v
+            comps_s = ','.join(map(str, comps))
+            for sp in pick_spellings(prng, comps, size):
+                ctx.count(f'spelling:{sp}')
+                native = make_native(built, c, kind, X6.spell_all(sp, comps))
+                err = None
+                try:
+                    lin = int(c.ravel_index(native))
+                    out = str(lin)
+                except Exception as e:  # noqa: BLE001
+                    lin, out, err = None, 'ERR', e
+                line = f'ravelt {spec} {dflt} {kind} {comps_s} {X6.type_of(sp)}'
+                items.append((line, out, {'recipe': recipe, 'op': line, 'dtype': sp}))
+                ctx.nontrivial((conv, shape, kind, 'ravelt', comps, sp))
+                d = {'recipe': recipe, 'kind': kind, 'index': list(comps), 'dtype': sp}
+                if lin is None:
+                    ctx.oracle_fail('ravel-in-range-raises', d,
+                                    f'ravel_index({comps}) with its components given as {sp} raised '
+                                    f'{type(err).__name__}: {err} {where}; the index is in range')
+                elif lin != exp:
+                    ctx.oracle_fail('not-row-major', d,
+                                    f'ravel_index({comps}) with its components given as {sp} = {lin}, row-major order '
+                                    f'{where} gives {exp}')
+            for sp in pick_spellings(prng, (exp,), size):
+                try:
+                    out = native_str(conv, c.wind_index(X6.spell(sp, exp), grid_kind=kind_objs[kind]))
+                except Exception:
+                    out = 'ERR'
+                line = f'windt {spec} {dflt} {kind} {exp} {X6.type_of(sp)}'
+                items.append((line, out, {'recipe': recipe, 'op': line, 'dtype': sp}))
+                ctx.nontrivial((conv, shape, kind, 'windt', exp, sp))
+                d = {'recipe': recipe, 'kind': kind, 'n': exp, 'dtype': sp}
+                if out == 'ERR':
+                    ctx.oracle_fail('wind-in-range-raises', d, f'wind_index({exp}) given as {sp} raised {where}')
+                elif out != f'{kind}:{comps_s}':
+                    ctx.oracle_fail('wind-not-row-major', d,
+                                    f'wind_index({exp}) given as {sp} = {out}, row-major order {where} gives {kind}:{comps_s}')
+        # out of range, spelt the same ways: refused, never wrapped into the grid
+        for p in ([cells[0], cells[-1]] if cells else []):
+            for a, s in enumerate(shape):
+                for v in (s, s + 1, -1, 2 * s, -s):
+                    q = tuple(v if b == a else w for b, w in enumerate(p))
+                    for sp in pick_spellings(prng, q, size):
+                        try:
+                            lin = int(c.ravel_index(make_native(built, c, kind, X6.spell_all(sp, q))))
+                            out = str(lin)
+                        except Exception:
+                            lin, out = None, 'ERR'
+                        line = f"ravelt {spec} {dflt} {kind} {','.join(map(str, q))} {X6.type_of(sp)}"
+                        items.append((line, out, {'recipe': recipe, 'op': line, 'dtype': sp}))
+                        ctx.nontrivial((conv, shape, kind, 'ravelt', q, sp))
+                        if lin is not None:
+                            ctx.oracle_fail('ravel-out-of-range-accepted',
+                                            {'recipe': recipe, 'kind': kind, 'index': list(q), 'dtype': sp},
+                                            f'ravel_index({q}) given as {sp} = {lin} {where}')
+        for n in (size, size + 1, -1, -size, 2 * size):
+            for sp in pick_spellings(prng, (n,), size):
+                try:
+                    out = native_str(conv, c.wind_index(X6.spell(sp, n), grid_kind=kind_objs[kind]))
+                except Exception:
+                    out = 'ERR'
+                line = f'windt {spec} {dflt} {kind} {n} {X6.type_of(sp)}'
+                items.append((line, out, {'recipe': recipe, 'op': line, 'dtype': sp}))
+                ctx.nontrivial((conv, shape, kind, 'windt', n, sp))
+                if out != 'ERR':
+                    ctx.oracle_fail('wind-out-of-range-accepted', {'recipe': recipe, 'kind': kind, 'n': n, 'dtype': sp},
+                                    f'wind_index({n}) given as {sp} = {out} {where}')
+
+
+def named_call(c, kind_objs: dict, w: list) -> str:
+    """one `nsize` / `nwind` / `nravel` question on the real convention object"""
+    try:
+        if w[0] == 'nsize':
+            return str(int(c.grid_size[kind_objs[w[3]]]))
+        if w[0] == 'nwind':
+            got = c.wind_index(int(w[4])) if w[3] == '-' else c.wind_index(int(w[4]), grid_kind=kind_objs[w[3]])
+            return native_str('shoc_standard', got)
+        comps = [int(v) for v in w[4].split(',')]
+        return str(int(c.ravel_index((kind_objs[w[3]], *comps))))
+    except Exception:
+        return 'ERR'
+
+
+def exercise_named(ctx, items: list, recipe: dict) -> None:
+    """an Arakawa C dataset under a names table, against the model of the table lookup (`arakawaConv`)"""
+    built = X6.build(recipe)
+    try:
+        c = X6.bind_fresh(built)
+    except Exception:
+        return              # (`exercise` reports it)
+    info = recipe['c01x']
+    ctx.count(f"named:{info['bind']}/{info['scheme']}/{info.get('keys')}")
+    kind_objs = {k.value: k for k in type(next(iter(c.grid_kinds)))}
+    vars_s, names_s = X6.names_spec(built)
+    for kind, (dims, shape) in built.grids.items():
+        size = shape[0] * shape[1]
+        last = ','.join(str(s - 1) for s in shape)
+        for op in (f'nsize {vars_s} {names_s} {kind}', f'nwind {vars_s} {names_s} {kind} {size - 1}',
+                   f'nwind {vars_s} {names_s} {kind} {size}', f'nravel {vars_s} {names_s} {kind} {last}',
+                   f'nravel {vars_s} {names_s} {kind} {shape[0]},0', f'nwind {vars_s} {names_s} - {size - 1}'):
+            items.append((op, named_call(c, kind_objs, op.split()), {'recipe': recipe, 'op': op}))
+            ctx.nontrivial(('named', info['scheme'], info['bind'], shape, kind, op.split()[0], op.split()[-1]))
+    # a table that names a latitude variable the dataset does not have: no grid of it can be addressed
+    kind = sorted(built.grids)[len(vars_s) % len(built.grids)]
+    bad = {k: list(v) for k, v in info['names'].items()}
+    bad[kind][0] = 'no_such_latitude'
+    _, bad_s = X6.names_spec(built, bad)
+    op = f'nsize {vars_s} {bad_s} {kind}'
+    # (`ShocStandard(dataset)` takes no table: the table is then given the documented way)
+    bad_info = {**info, 'names': bad, 'bind': 'coordinate_names' if info['bind'] == 'class' else info['bind']}
+    try:
+        c_bad = X6.construct_named(built.ds, bad_info)
+        out = named_call(c_bad, kind_objs, op.split())
+    except Exception:
+        out = 'ERR'
+    items.append((op, out, {'recipe': recipe, 'op': op, 'table': bad_info}))
+# <<< sixth round ------------------------------------------------------------------------------------------------
+
+
 def with_history(rng, recipe: dict, u: int) -> dict:
     """the recipe with the history of its convention object (and depth / time coordinates for it to look at)"""
     history = X.random_history(rng, u)
@@ -269,6 +464,23 @@ def run(ctx) -> None:
         ctx.count(f"bind:{info['bind']}/{info['pair']}" + ('+2nd-pair' if info['extra'] else ''))
         ctx.count(f"lon:{info['lon_class']}")
         ctx.guarded(lambda: exercise(ctx, items, recipe, 'x-'), {'recipe': recipe})
+    # >>> sixth round: streams three and four draw from a random stream of their own (the first two are left as they were)
+    rng6 = random.Random(f'{ctx.seed}:{int(ctx.searching)}:c01-extra6')
+    for k in range(ctx.budget(20, 96)):
+        recipe = X6.random_typed(rng6, k, ctx.tier)
+        ctx.guarded(lambda: exercise_typed(ctx, items, recipe), {'recipe': recipe})
+    for k in range(ctx.budget(32, 160)):
+        recipe = X6.random_process(rng6, k, ctx.tier)
+        recipe = G.attach_vars(rng6, recipe, n_vars=2, max_extra=1)
+        recipe = with_history(rng6, recipe, k + 2)
+        ctx.count(f'before:{k % 8}:' + '+'.join(e.get('do', 'open') for e in recipe['c01_before']))
+
+        def case(recipe=recipe):
+            exercise(ctx, items, recipe, 'p-')
+            if 'c01x' in recipe:
+                exercise_named(ctx, items, recipe)
+        ctx.guarded(case, {'recipe': recipe})
+    # <<< sixth round
     if ctx.searching and ctx.driver is None:
         ctx.evaluated(len(items))
         return
@@ -281,7 +493,7 @@ def replay(ctx, data) -> int:
 
 def run_one(ctx, inp: dict) -> dict:
     """Re-execute one recorded input on the real code and on the model."""
-    built = X.build(inp['recipe'])
+    built = X6.build(inp['recipe'])
     out = {}
     info = inp['recipe'].get('c01')
     if info:
@@ -291,12 +503,58 @@ def run_one(ctx, inp: dict) -> dict:
         out['history'] = ('questions put to the convention object before this one: '
                           + ', '.join(inp['recipe']['c01_history']))
     try:
-        c = X.bind(built)
+        c = X6.bind(built)
     except Exception as e:  # noqa: BLE001
         out['impl'] = f'ERR constructing the convention ({type(e).__name__}: {e})'
         return out
     op = inp.get('op')
     kind_objs = {getattr(k, 'value', k): k for k in c.grid_kinds}
+    # >>> sixth round: what happened before, how the integers are spelt
+    if inp['recipe'].get('c01_before'):
+        out['before'] = ('done in this process before the convention object was made: '
+                         + '; '.join(f"{e.get('do', 'open')} {(e.get('recipe') or {}).get('conv', '')} "
+                                     f"{(e.get('recipe') or e).get('c01x', e.get('info', ''))} -> {note}"
+                                     for e, note in zip(inp['recipe']['c01_before'], built.extra.get('c01_before_notes', []))))
+    sp = inp.get('dtype')
+    if sp:
+        out['spelling'] = f'the integers of the question are given as {sp}'
+    if op and op.split()[0] in ('nsize', 'nwind', 'nravel'):
+        all_kinds = {k.value: k for k in type(next(iter(c.grid_kinds)))}
+        target = X6.construct_named(built.ds, inp['table']) if inp.get('table') else c
+        out['impl'] = named_call(target, all_kinds, op.split())
+        if ctx.driver:
+            out['model'] = ctx.model([op])[0]
+        return out
+    if op and op.split()[0] in ('ravelt', 'windt'):
+        w = op.split()
+        try:
+            if w[0] == 'windt':
+                got = c.wind_index(X6.spell(sp, int(w[4]))) if w[3] == '-' else \
+                    c.wind_index(X6.spell(sp, int(w[4])), grid_kind=kind_objs[w[3]])
+                out['impl'] = native_str(built.conv, got)
+            else:
+                comps = X6.spell_all(sp, [int(v) for v in w[4].split(',')])
+                out['impl'] = str(int(c.ravel_index(make_native(built, c, w[3], comps))))
+        except Exception as e:
+            out['impl'] = f'ERR ({type(e).__name__}: {e})'
+        if ctx.driver:
+            out['model'] = ctx.model([op])[0]
+        return out
+    if sp and 'n' in inp:
+        try:
+            got = c.wind_index(X6.spell(sp, inp['n']), grid_kind=kind_objs[inp['kind']])
+            out['impl'] = f"wind_index({inp['n']} as {sp}) = {native_str(built.conv, got)}"
+        except Exception as e:
+            out['impl'] = f'ERR ({type(e).__name__}: {e})'
+        return out
+    if sp and 'index' in inp:
+        try:
+            native = make_native(built, c, inp['kind'], X6.spell_all(sp, inp['index']))
+            out['impl'] = f"ravel_index({tuple(inp['index'])} as {sp}) = {c.ravel_index(native)}"
+        except Exception as e:
+            out['impl'] = f'ERR ({type(e).__name__}: {e})'
+        return out
+    # <<< sixth round
     if op:
         w = op.split()
         try:
